@@ -1219,7 +1219,7 @@ func TestVerif_C01_CanaryScan(t *testing.T) {
 		tx, shamir bool
 	}
 	variants := []variant{{true, false}, {false, true}}
-	n := kit.N(2, 10)
+	n := kit.N(4, 24)
 	for i := 0; i < n; i++ {
 		if i%shards != shard {
 			continue
@@ -1245,7 +1245,7 @@ func TestVerif_C01_CanaryScan(t *testing.T) {
 		w := &c01W{t: t, v: v, r: r, rng: rng, cz: c01NewCanaries(rng), caseID: caseID,
 			root: &c01KR{Name: "root", Keys: map[uint32][]byte{}}, nsKR: map[string]*c01KR{}, nsUUID: map[string]string{}, shares: map[string][]string{}}
 		w.samples = []c01Sample{{Seq: 0, Terms: map[string]uint32{"": 1}}}
-		w.run(vr.shamir, kit.N(120, 300))
+		w.run(vr.shamir, kit.N(120, 500))
 		w.analyse()
 		r.Count("workloads", 1)
 		r.Count(fmt.Sprintf("workloads_tx=%v_shamir=%v", vr.tx, vr.shamir), 1)
@@ -1254,17 +1254,21 @@ func TestVerif_C01_CanaryScan(t *testing.T) {
 			break
 		}
 	}
-	per := int64(1)
-	r.Require("workloads", per)
-	r.Require("requests_ok", 250*per)
+	per := r.Get("workloads")
+	if per < 1 {
+		per = 1
+	}
+	r.Require("workloads", int64(n/shards))
+	r.Require("requests_ok", 200*per)
 	r.Require("canaries_planted", 300*per)
-	r.Require("journal_puts", 800*per)
-	r.Require("records_opened_independently", 1000*per)
-	r.Require("records_after_rotation", 100*per)
-	r.Require("term_checks", 800*per)
-	r.Require("binding_negative_checks", 5000*per)
-	r.Require("bypass_records:seal-config", 1)
-	r.Require("bypass_records:stored-keys", 1)
+	r.Require("journal_puts", 300*per)
+	r.Require("records_opened_independently", 600*per)
+	r.Require("records_after_rotation", 120*per)
+	r.Require("term_checks", 300*per)
+	r.Require("binding_negative_checks", 3000*per)
+	r.Require("bypass_records:seal-config", per)
+	r.Require("bypass_records:stored-keys", per)
+	r.Require("scanner_self_tests", per)
 	r.Require("restarts", per)
 	for _, fam := range []string{"kv1", "kv2", "policy", "token", "cubbyhole", "wrapping", "userpass", "approle", "identity", "oidc", "transit", "pki", "namespace", "sealed-namespace", "rotate", "ui-headers", "sysconfig"} {
 		r.Require("family_ok:"+fam, 1)
